@@ -118,6 +118,15 @@ def is_mutable(x):
     return isinstance(x, (list, dict, np.ndarray)) or _is_container(x) or _is_trace(x) or isinstance(x, ClassRoot)
 
 
+class RawCode:
+    """a scalar whose model code is fixed (the structure flags F_MODEL / F_ALIAS / F_TRACER of a class object)"""
+    def __init__(self, c):
+        self.c = c
+
+    def __repr__(self):
+        return 'RawCode(%d)' % self.c
+
+
 class ClassRoot:
     """A class object seen as a root: its class-level attributes in the order of the model's class object."""
     def __init__(self, cls, desc):
@@ -133,8 +142,8 @@ class ClassRoot:
             out += [('ALIASES', c.ALIASES), ('PREFERRED_NAMES', c.PREFERRED_NAMES)]
         if d['tracer']:
             out.append(('TRACE_VARIABLES', c.TRACE_VARIABLES))
-        out += [('F_MODEL', {'container': 0, 'model': 1, 'linker': 2}[d['kind']]), ('F_ALIAS', 1 if d['alias'] is not None else 0),
-                ('F_TRACER', 1 if d['tracer'] else 0)]
+        out += [('F_MODEL', RawCode({'container': 0, 'model': 1, 'linker': 2}[d['kind']])),
+                ('F_ALIAS', RawCode(1 if d['alias'] is not None else 0)), ('F_TRACER', RawCode(1 if d['tracer'] else 0))]
         return out
 
 
@@ -167,6 +176,8 @@ def kind_cells(x, enc):
 
 
 def ctree(x, enc, depth):
+    if isinstance(x, RawCode):
+        return x.c
     if not is_mutable(x):
         return enc.code(x)
     if depth == 0:
